@@ -465,7 +465,7 @@ pub fn edges(groups: &mut Vec<Group>, rng: &mut Rng) {
         k += 1;
         m.push_def(def(&format!("Ed{}", k), ty));
     };
-    for (lo, hi) in [(5i128, 5i128), (0, 0), (-3, -3), (0, 7), (1, 8), (-8, -1), (-128, 127), (0, 255), (0, 256), (100, 1000), (-1, 65535), (0, 65535), (0, 65536), (-70000, 70000), (0, 4294967295), (1, 4294967296)] {
+    for (lo, hi) in [(5i128, 5i128), (0, 0), (-3, -3), (0, 7), (1, 8), (-8, -1), (-128, 127), (0, 255), (0, 256), (100, 1000), (-1, 65535), (0, 65535), (0, 65536), (-70000, 70000), (0, 4294967295), (1, 4294967296), (0, 1i128 << 33), (0, 1i128 << 62), (-(1i128 << 62), (1i128 << 62) - 1), (0, i64::MAX as i128)] {
         push(&mut m, Type::int(lo, hi));
         push(&mut m, Type::Integer { c: Some(IntC { lo: Bound::Lit(lo), hi: Bound::Lit(hi), ext: true }), named: vec![] });
     }
